@@ -2,7 +2,7 @@ import json,glob,os,shutil,subprocess,tempfile
 ENV=dict(os.environ,GOFLAGS="-mod=mod",GOPROXY="off",GOSUMDB="off",GOTOOLCHAIN="local"); ENV.pop("GOWORK",None)
 tmp=tempfile.mkdtemp(prefix='demos-')
 repo=tmp+'/repo'
-shutil.copytree('/repo',repo,ignore=shutil.ignore_patterns('.git'))
+shutil.copytree(os.environ.get('REPO','/repo'),repo,ignore=shutil.ignore_patterns('.git'))
 res={}
 for d in sorted(glob.glob('/verif/seeded/*')):
     sid=os.path.basename(d)
